@@ -153,7 +153,13 @@ def decide(gd, idx, cls, do_thresholds=True, do_run_games=False):
         if out_p.status in ("ok", "nosol"):
             with monitors.budget(limit * 3):
                 try:
-                    rr = cr.run_games({"g": games.to_solver(gd)})
+                    batch = {"g": games.to_solver(gd)}
+                    if (idx // 10) % 2:
+                        # the game is the second one of the file, behind a small solvable game
+                        lead = {"rewards": [1, 0, 0], "players": [PR, PR, PR], "transition_list": [[(0.25, 1), (0.75, 2)], [(1, 1)], [(1, 2)]], "final_states": [1]}
+                        batch = {"lead": lead, "g": batch["g"]}
+                        res["stats"]["run_games_second_in_file"] = 1
+                    rr = cr.run_games(batch)
                 except monitors.StepBudgetExceeded:
                     res["stats"]["run_games_budget_overruns"] = 1
                 finally:
@@ -167,6 +173,12 @@ def decide(gd, idx, cls, do_thresholds=True, do_run_games=False):
                 if rr["g"]["probabilities"] != x:
                     problems.append({"problem": "run_games (pruned) reports different probabilities than solve()", "mode": "run_games",
                                      "got": rr["g"]["probabilities"], "solve": x})
+            else:
+                # not solved: whatever probability vector the two entries carry nevertheless must be this game's
+                for key in ("g", "g_no_prune"):
+                    if rr[key]["probabilities"] is not None and rr[key]["probabilities"] != x:
+                        problems.append({"problem": "run_games reports, for a game it did not solve, probabilities that are not this game's values",
+                                         "mode": "run_games", "entry": key, "got": rr[key]["probabilities"], "solve": x})
     if problems:
         res.update(verdict="violated", what="%s (state %s, %s)" % (problems[0]["problem"], problems[0].get("state"), problems[0].get("mode")),
                    witness=problems[:4], case={"game": games.enc_game(gd)})
